@@ -614,7 +614,7 @@ class MeiParser(object):
             raise Exception("Nested tuplets are not yet supported.")
         return symbolic_duration
 
-    def _duration_info(self, el, part):
+    def _duration_info(self, el, part, need_id=True):
         """
         Extract duration info from a xml element.
 
@@ -661,7 +661,10 @@ class MeiParser(object):
             assert duration == int(duration)
 
         # find id
-        id = el.attrib[self._ns_name("id", XML_NAMESPACE)]
+        if need_id:
+            id = el.attrib[self._ns_name("id", XML_NAMESPACE)]
+        else:
+            id = el.get(self._ns_name("id", XML_NAMESPACE))
         return id, int(duration), symbolic_duration
 
     def _handle_note(self, note_el, position, voice, staff, part) -> int:
@@ -933,11 +936,10 @@ class MeiParser(object):
 
     def _handle_space(self, e, position, part):
         """Moves current position."""
-        try:
-            space_id, duration, symbolic_duration = self._duration_info(e, part)
-        except (
-            KeyError
-        ):  # if the space don't have a duration, move to the end of the measure
+        if e.get("dur") is not None:
+            # only the duration of a space is needed: its xml:id may be missing
+            duration = self._duration_info(e, part, need_id=False)[1]
+        else:  # if the space don't have a duration, move to the end of the measure
             # find closest time signature
             last_ts = list(part.iter_all(cls=score.TimeSignature))[-1]
             # find divs per measure
